@@ -10,7 +10,7 @@ import (
 	"verifharness/internal/gen"
 )
 
-// C18 \u2014 line and width metrics are mutually consistent.
+// C18 - line and width metrics are mutually consistent.
 //
 // Monitor: metamorphic relations, each tying two independently computed
 // library results together (no golden numbers).
